@@ -1,7 +1,7 @@
 (* TypingTheorems.v — the statements exported to Properties/C04.v, the examples showing that their
    hypotheses are satisfiable, and the refutation witnesses (by vm_compute). *)
 From PG Require Import Common.Tactics Model.Typing Proofs.TypingBasics Proofs.TypingApply Proofs.TypingCompat
-                       Proofs.TypingExtend.
+                       Proofs.TypingExtend Proofs.TypingDict Proofs.TypingApplyDict Proofs.TypingCompatDict.
 Local Open Scope Z_scope.
 
 (* ------------------------------------------------------------------------------------------ *)
@@ -32,6 +32,23 @@ Proof.
     eapply apply_idempotent_seq; eauto.
     + rewrite no_union_with_mods; auto.
     + rewrite no_schema_with_mods; auto.
+Qed.
+
+Lemma keys_ok_with_mods : forall s m, keys_ok (with_mods s m) = keys_ok s.
+Proof. destruct s; reflexivity. Qed.
+
+Theorem default_acceptable : forall s d d' fz,
+  no_union s = true -> keys_ok s = true ->
+  apply true (unfreeze s) d = Ok d' ->
+  apply true (with_mods s (Mods (noneable (mods_of s)) (Some d') fz)) d' = Ok d'.
+Proof.
+  intros s d d' fz NU KO H. destruct fz.
+  - rewrite apply_eq. unfold pipeline. destruct s; cbn; rewrite py_eq_refl, orb_true_r; reflexivity.
+  - unfold unfreeze in H.
+    rewrite (apply_default_irrelevant true s _ (Some d') (default (mods_of s))).
+    eapply apply_idempotent; eauto.
+    + rewrite no_union_with_mods; auto.
+    + rewrite keys_ok_with_mods; auto.
 Qed.
 
 (* ------------------------------------------------------------------------------------------ *)
@@ -172,3 +189,15 @@ Proof.
   exists (SBool m0), (SUnion [SInt (Some 5) (Some 5) m0; SBool m0] m0), (SBool m0), (PBool true).
   repeat split; vm_compute; reflexivity.
 Qed.
+
+(* a Dict pair satisfying the hypotheses of compat_sound, with a StrKey() field *)
+Definition ex_da : spec :=
+  SDict (Some [(KConst (S_ 120), SInt None None (Mods true None false)); (KDyn, SFloat None None m0)]) m0.
+Definition ex_db : spec :=
+  SDict (Some [(KDyn, SFloat (Some 0) None m0); (KConst (S_ 120), SInt (Some 0) (Some 5) (Mods false (Some (PInt 1)) false))]) m0.
+Example ex_dict_hyps : wf ex_da /\ wf ex_db /\ keys_ok ex_db = true /\ no_union ex_da = true /\ compat noq ex_da ex_db = true.
+Proof.
+  unfold ex_da, ex_db. repeat split; try reflexivity; unfold frozen_value_ok; simpl; intros; try discriminate.
+Qed.
+Example ex_dict_value : conforms ex_db (PDict [(S_ 113, PFlt 96); (S_ 120, PInt 2)]).
+Proof. vm_compute. reflexivity. Qed.
